@@ -96,6 +96,11 @@ def run_case(case, pname, variant, occ=0):
         eq(label, [tuple(_abs_key(prof, r, nk)) for r in rows[1:]], [tuple(rowfn(g)) for g in G])
     rows_only('aggregate(len,key=index)', lambda: etl.aggregate(t, ikey, len, **kw), lambda g: kk(g) + [len(g['rows'])])
     rows_only('aggregate(list,n,key=index)', lambda: etl.aggregate(t, ikey, list, 'n', **kw), lambda g: kk(g) + [ns(g)])
+    # key AND value by index over a table whose value field comes first (n, k, j): indices refer to the table as given
+    tp = [list(r)[2:3] + list(r)[0:2] for r in t]
+    pkey = 1 if kf == 'k' else (1, 2)
+    rows_only('aggregate(list,value=index 0,key=index %r)' % (pkey,), lambda: etl.aggregate(tp, pkey, list, 0, **kw), lambda g: kk(g) + [ns(g)])
+    rows_only('aggregate(sum,value=index 0,key=index %r)' % (pkey,), lambda: etl.aggregate(tp, pkey, sum, 0, **kw), lambda g: kk(g) + [sum(ns(g))])
     rows_only('aggregate(dict,key=index)', lambda: etl.aggregate(t, ikey, OrderedDict([('c', len), ('s', ('n', sum))]), **kw),
               lambda g: kk(g) + [len(g['rows']), sum(ns(g))])
     rows_only('rowreduce(key=index)', lambda: etl.rowreduce(t, ikey, lambda k, rows: (list(k) if isinstance(k, tuple) and nk > 1 else [k]) + [sum(r[2] for r in rows)],
